@@ -20,6 +20,12 @@ def parseROp (t : String) : Option ROp :=
   | ["enableOnly", ns, ig] => some (.enableOnly (decList ns) (decBool ig))
   | ["disable", ns, ig] => some (.disable (decList ns) (decBool ig))
   | ["get", c] => some (.getRules (decStr c))
+  | ["lazy", b, items] =>
+    -- items: `cb>name` joined by ',', cb = `!` (no callback) or an encoded chain name
+    let l := (if items == "~" then [] else items.splitOn ",").filterMap (fun it => match it.splitOn ">" with
+      | [cb, n] => some ((if cb == "!" then none else some (decStr cb)), decStr n)
+      | _ => none)
+    some (.setLazy (decBool b) l)
   | _ => none
 
 def rulerLine (toks : List String) : String :=
